@@ -219,7 +219,9 @@ def rejectLoop (test : List α × ρ → Bool) (lim : Nat) :
       else rejectLoop test lim ds (d.baseInf, d.baseRest) (it + 1)
     else ⟨false, cur, it, d :: ds, false, false⟩
 
-/-- `samplePhsRejectBounds` -/
+/-- `samplePhsRejectBounds` (as fixed by 74ee9605c, finding F34): a kept sample must satisfy the bounds AND
+(after the rounding of the transform) still lie in some PHS:
+`foundSample = space_->satisfiesBounds(statePtr) && isInAnyPhs(informedVector)`. -/
 def phsRejectBounds (s : Sampler α) (inB : List α × ρ → Bool) (lim : Nat) :
     List (Draw α ρ) → List α × ρ → Nat → Out α ρ
   | [], cur, it => ⟨false, cur, it, [], decide (it < lim), false⟩
@@ -232,9 +234,28 @@ def phsRejectBounds (s : Sampler α) (inB : List α × ρ → Bool) (lim : Nat) 
         | none => ⟨false, cur, it, ds, false, true⟩
         | some x =>
           if s.keep x d.r2 then
-            if inB (x, d.rot) then ⟨true, (x, d.rot), it + 1, ds, false, false⟩
+            if inB (x, d.rot) && s.isInAny x then ⟨true, (x, d.rot), it + 1, ds, false, false⟩
             else phsRejectBounds s inB lim ds (x, d.rot) (it + 1)
           else phsRejectBounds s inB lim ds cur (it + 1)
+    else ⟨false, cur, it, d :: ds, false, false⟩
+
+/-- `samplePhsRejectBounds` BEFORE the fix (F34): only `satisfiesBounds` was tested.  Kept for the witness
+`direct_old_phs_branch_fails`; not used by the sampler model. -/
+def phsRejectBoundsOld (s : Sampler α) (inB : List α × ρ → Bool) (lim : Nat) :
+    List (Draw α ρ) → List α × ρ → Nat → Out α ρ
+  | [], cur, it => ⟨false, cur, it, [], decide (it < lim), false⟩
+  | d :: ds, cur, it =>
+    if it < lim then
+      match s.randomPhs d.r1 with
+      | none => ⟨false, cur, it, ds, false, true⟩
+      | some p =>
+        match p.transform d.ball with
+        | none => ⟨false, cur, it, ds, false, true⟩
+        | some x =>
+          if s.keep x d.r2 then
+            if inB (x, d.rot) then ⟨true, (x, d.rot), it + 1, ds, false, false⟩
+            else phsRejectBoundsOld s inB lim ds (x, d.rot) (it + 1)
+          else phsRejectBoundsOld s inB lim ds cur (it + 1)
     else ⟨false, cur, it, d :: ds, false, false⟩
 
 /-- private `sampleUniform(statePtr, maxCost, iters)`; `fin = isFinite(maxCost)`.  Returns the updated
@@ -316,18 +337,36 @@ def argBest (h : σ → α) : List σ → Option σ
   | [] => none
   | x :: xs => some (xs.foldl (fun b y => if h y < h b then y else b) x)
 
-/-- one wrapped call: `(returned flag, state left in the pointer)`.  `createBatch` IGNORES the flag. -/
+/-- one wrapped call: `(returned flag, state left in the pointer)`. -/
 abbrev Wrapped (σ : Type) := Bool × σ
 
-/-- `OrderedInfSampler::sampleUniform(statePtr, maxCost)` on an empty queue, given the successive
-batches the wrapped sampler would produce.  `none`: the `while (!found)` loop did not finish within
-the supplied batches.  Returns the sample and the queue left over. -/
-def orderedSample (h : σ → α) (c : α) : List (List (Wrapped σ)) → Option (σ × List σ)
+/-- outcome of `OrderedInfSampler::sampleUniform(statePtr, maxCost)` -/
+inductive OrdRes (σ : Type) where
+  | found (t : σ) (q : List σ)   -- returned true with `t`; `q` = the queue `t` was the top of
+  | failed                       -- returned false: a whole batch of wrapped calls failed
+  | starved                      -- the `while (!found)` loop did not finish within the supplied batches
+
+/-- `OrderedInfSampler::sampleUniform(statePtr, maxCost)` on an empty queue, as fixed by 4bc34ddf9
+(finding F35), given the successive batches the wrapped sampler would produce: `createBatch` keeps a
+sample only if the wrapped `sampleUniform` returned true; an empty queue after `createBatch` returns
+false; a top that fails the cost test clears the batch and loops. -/
+def orderedSample (h : σ → α) (c : α) : List (List (Wrapped σ)) → OrdRes σ
+  | [] => .starved
+  | b :: bs =>
+    let q := (b.filter (·.1)).map (·.2)
+    match argBest h q with
+    | none => .failed
+    | some t => if h t < c then .found t q else orderedSample h c bs
+
+/-- `OrderedInfSampler::sampleUniform` BEFORE the fix (F35): `createBatch` IGNORED the wrapped flag and
+there was no failure return.  `none`: the loop did not finish within the supplied batches.  Kept for
+the witness `ordered_old_sound_fails`. -/
+def orderedSampleOld (h : σ → α) (c : α) : List (List (Wrapped σ)) → Option (σ × List σ)
   | [] => none
   | b :: bs =>
     let q := b.map (·.2)
     match argBest h q with
-    | none => orderedSample h c bs
-    | some t => if h t < c then some (t, q) else orderedSample h c bs
+    | none => orderedSampleOld h c bs
+    | some t => if h t < c then some (t, q) else orderedSampleOld h c bs
 
 end OmplModel.Phs
